@@ -264,7 +264,7 @@ theorem C02_publish_one_copy_each (msg : Msg) (t : String) : ∀ (l : List ModId
     (k ∈ l → (md.state = .running ∨ md.state = .paused) → ∀ sub, fetchSub s md t = some sub → ∀ q, md.pipe = some q →
       q.length + md.pipeSkip < pipeCap →
       ∃ copy md', (pubWalk s msg t l).mods[k]? = some md' ∧ md'.pipe = some (q ++ [copy]) ∧ copy.payload = msg.payload ∧
-        copy.sender = msg.sender ∧ copy.topic = msg.topic ∧ copy.sub = some sub ∧ md'.state = md.state)
+        copy.sender = msg.sender ∧ copy.topic = msg.topic ∧ copy.sub = some sub ∧ md'.state = md.state ∧ copy.sys = msg.sys)
   | [], s, _, k, md, hm => ⟨fun _ => hm, ⟨fun h => absurd h (by simp), fun h => absurd h (by simp)⟩⟩
   | r :: rs, s, hn, k, md, hm => by
     have hn' := List.nodup_cons.mp hn
@@ -293,8 +293,8 @@ theorem C02_publish_one_copy_each (msg : Msg) (t : String) : ∀ (l : List ModId
       · have hst : (md.state == MState.running || md.state == MState.paused) = true := by rcases he with h | h <;> simp [h]
         have hstep : pubStep msg t s k = tellIf s msg (.sub sub) k := by
           unfold pubStep; simp only [hm, hst, if_true, hf]
-        obtain ⟨c, md', h1, h2, h3, h4, h5, _, h6, _, _⟩ := C02_eligible_gets_one_copy s msg (.sub sub) k md q hm he hp hroom
-        refine ⟨c, md', ?_, h2, h5, h3, h4, ?_, h6⟩
+        obtain ⟨c, md', h1, h2, h3, h4, h5, hsys, h6, _, _⟩ := C02_eligible_gets_one_copy s msg (.sub sub) k md q hm he hp hroom
+        refine ⟨c, md', ?_, h2, h5, h3, h4, ?_, h6, hsys⟩
         · rw [pubWalk_untouched msg t rs _ k hn'.1, hstep]; exact h1
         · -- the copy is tagged with the subscription
           have : (tellIf s msg (.sub sub) k).mods[k]? = some { md with pipe := some (q ++ [{ msg with sub := some sub, rcpt := some k }]) } := by
@@ -334,7 +334,7 @@ theorem C02_publish_exactly_the_subscribed (s : St) (msg : Msg) (t : String) (h 
     (k ∈ s.tableOrder → (md.state = .running ∨ md.state = .paused) → ∀ sub, fetchSub s md t = some sub → ∀ q, md.pipe = some q →
       q.length + md.pipeSkip < pipeCap →
       ∃ copy md', (tellPubsub s msg none).mods[k]? = some md' ∧ md'.pipe = some (q ++ [copy]) ∧ copy.payload = msg.payload ∧
-        copy.sender = msg.sender ∧ copy.topic = msg.topic ∧ copy.sub = some sub ∧ md'.state = md.state) := by
+        copy.sender = msg.sender ∧ copy.topic = msg.topic ∧ copy.sub = some sub ∧ md'.state = md.state ∧ copy.sys = msg.sys) := by
   rw [C02_publish_is_the_table_walk s msg t h]
   exact C02_publish_one_copy_each msg t s.tableOrder s (C02_table_walk_visits_once s) k md hm
 
